@@ -1,4 +1,5 @@
 import operator
+import re
 from contextlib import contextmanager
 from functools import reduce, total_ordering
 from itertools import groupby
@@ -305,13 +306,14 @@ class Keyword(Object):
 
 
 def strip_digit_separators(number):
-    # Don't strip a _ or , if it's the first character, as _42 and
-    # ,42 aren't valid numbers
-    return (
-        number[0] + number[1:].replace("_", "").replace(",", "")
-        if isinstance(number, str) and len(number) > 1
-        else number
-    )
+    # Don't strip a _ or , before the first digit, as _42, ,42, and +_42
+    # aren't valid numbers
+    if isinstance(number, str):
+        m = re.search("[0-9]", number)
+        if m:
+            i = m.start()
+            return number[:i] + number[i:].replace("_", "").replace(",", "")
+    return number
 
 
 class Integer(Object, int):
